@@ -47,3 +47,38 @@ Fixpoint wrap (comps : list string) (body : string) : string :=
   | [] => body
   | n :: r => " namespace " ++ n ++ " { " ++ wrap r body ++ " } "
   end.
+
+(* ---------------------------------------------------------------- the C# back end *)
+
+(* one .cs file per element: a class, an interface (abstract classes and classes stereotyped Interface), an enumeration, a
+   struct; nothing for an element stereotyped both enum and struct, nothing for a class or interface generated elsewhere *)
+Definition spec_exts_cs (c : cls) : list string :=
+  if c_enum c && c_struct c then []
+  else if c_enum c || c_struct c then [".cs"]
+  else if c_autogen c then [] else [".cs"].
+
+Definition spec_files_cs (nsf : bool) (c : cls) : list string :=
+  map (fun e => spec_folder nsf (c_ns c) ++ c_name c ++ e) (spec_exts_cs c).
+
+(* each namespace once, in order of first occurrence *)
+Fixpoint dedup (l : list string) : list string :=
+  match l with [] => [] | x :: r => x :: filter (fun y => negb (String.eqb x y)) (dedup r) end.
+
+(* the project files: one per namespace, in its folder, named after the FULLY QUALIFIED namespace (A/B/A::B.csproj) when
+   namespace folders are requested; else one named after the diagram *)
+Definition spec_projects (nsf : bool) (dname : string) (d : cdiagram) : list string :=
+  if nsf then map (fun ns => spec_folder true ns ++ ns ++ ".csproj") (dedup (map c_ns (classes d)))
+  else [(if String.eqb dname "" then "Project" else dname) ++ ".csproj"].
+
+Definition expected_files_cs (nsf : bool) (dname : string) (d : cdiagram) : list (string * string) :=
+  (flat_map (fun c => map (fun f => (f, c_id c)) (spec_files_cs nsf c)) (classes d)
+   ++ map (fun f => (f, "")) (spec_projects nsf dname d))%list.
+
+(* a namespace (or diagram name) that names a project file: it does not start with a separator *)
+Definition proj_ok (nsf : bool) (ns : string) : bool :=
+  negb (prefixb "/" ns) && (negb nsf || negb (last_is_slash (folder_chain ns))).
+
+Definition files_hyp_cs (nsf : bool) (dname : string) (d : cdiagram) : bool :=
+  forallb path_ok (classes d)
+  && forallb (proj_ok nsf) (if nsf then dedup (map c_ns (classes d)) else [if String.eqb dname "" then "Project" else dname])
+  && nodupb (flat_map (spec_files_cs nsf) (classes d) ++ spec_projects nsf dname d).
